@@ -31,6 +31,21 @@ def attribute(steps, base=None, cpu_s=3.0):
         if before[0] != "ok":
             continue
         after = run(s["out"])
+        if not oracle_exec.agrees(before, after) and s["rule"].startswith("processing.chain["):
+            # a chained step: find the component rule that alone reproduces a divergence on the step's input
+            rf = hooks.rule_functions()
+            for part in s["rule"][len("processing.chain["):-1].split("+"):
+                key = next((k for k in rf if k[1] == part), None)
+                if key is None:
+                    continue
+                try:
+                    out = hooks.call_rule(rf[key], s["in"])
+                except Exception:
+                    continue
+                if out != s["in"]:
+                    a2 = run(out)
+                    if not oracle_exec.agrees(before, a2):
+                        return {"rule": f"{key[0]}.{key[1]}", "before": s["in"], "after": out, "before_out": before[1][-400:], "after_status": a2[0], "after_out": a2[1][-400:]}
         if not oracle_exec.agrees(before, after):
             return {"rule": s["rule"], "before": s["in"], "after": s["out"], "before_out": before[1][-400:],
                     "after_status": after[0], "after_out": after[1][-400:]}
